@@ -15,6 +15,7 @@ import (
 //	Fresh:  only entries of objects allocated during the call change
 type ModSet struct {
 	Top           bool
+	Locks         bool              // may acquire/release a sync lock (transitively)
 	FreshTop      bool              // unknown set of arrays, but only fresh objects are written
 	Arrays        map[string]string // name -> elem sort (as passed to Ctx.arr)
 	Fresh         map[string]string
@@ -29,6 +30,10 @@ func newModSet() *ModSet {
 
 func (m *ModSet) union(o *ModSet, freshToo bool) bool {
 	ch := false
+	if o.Locks && !m.Locks {
+		m.Locks = true
+		ch = true
+	}
 	if o.Top && !m.Top {
 		m.Top = true
 		ch = true
@@ -61,6 +66,7 @@ type ModAnalysis struct {
 	nonFinalWriters  map[string]map[string]bool
 	retFresh         map[*ssa.Function][]bool
 	FinalAssumptions []string
+	MutatedGlobals   map[*ssa.Global]map[string]bool // package-level containers whose contents change after init
 	pureCache        map[*ssa.Function]*pureInfo
 	pureIfaceCache   map[string]int
 }
@@ -259,6 +265,9 @@ func (ma *ModAnalysis) instrMods(fn *ssa.Function, ins ssa.Instruction, ms *ModS
 	case *ssa.Store:
 		ma.addrMods(x.Addr, add, ms)
 	case *ssa.MapUpdate:
+		if g := guardedGlobalOf(x.Map); g != nil && !isInitFunc(fn) {
+			ma.noteMutatedGlobal(g, fn)
+		}
 		mt := x.Map.Type().Underlying().(*types.Map)
 		ma.mapMods(mt, ma.origin(x.Map, 0), add)
 	case *ssa.Go, *ssa.Send, *ssa.Select:
@@ -603,6 +612,12 @@ func (ma *ModAnalysis) callMods(fn *ssa.Function, cc *ssa.CallCommon, ms *ModSet
 		}
 		return false
 	}
+	if strings.HasPrefix(callee.String(), "(*sync.RWMutex).") || strings.HasPrefix(callee.String(), "(*sync.Mutex).") {
+		if !ms.Locks {
+			ms.Locks = true
+			ch = true
+		}
+	}
 	if ma.sp != nil {
 		if con := ma.sp.Contracts[ma.w.keyOfAny(callee)]; con != nil && con.HasAssigns && len(con.Assigns) == 0 {
 			if cs, ok := ma.sets[callee]; ok {
@@ -923,4 +938,14 @@ func (ma *ModAnalysis) AtCall(callee *ssa.Function, args []ssa.Value) *ModSet {
 func (ma *ModAnalysis) RetFresh(fn *ssa.Function, i int) bool {
 	rf := ma.retFresh[fn]
 	return i < len(rf) && rf[i]
+}
+
+func (ma *ModAnalysis) noteMutatedGlobal(g *ssa.Global, fn *ssa.Function) {
+	if ma.MutatedGlobals == nil {
+		ma.MutatedGlobals = map[*ssa.Global]map[string]bool{}
+	}
+	if ma.MutatedGlobals[g] == nil {
+		ma.MutatedGlobals[g] = map[string]bool{}
+	}
+	ma.MutatedGlobals[g][ma.w.keyOfAny(fn)] = true
 }
